@@ -1936,3 +1936,15 @@ V("C07", "partial_resolution_from_direct_parent_only", "fire", "R07.d", (Z, """ 
                         subdeps, _ = self_._spec_to_obj(
                             '.'.join(path), dynamic, intermediate)
                         deps += subdeps"""))
+V("C08", "dynamic_state_attached_to_reference", "fire", "R08.y", (P, """        if dynamic and obj is not None and self.name in obj._param__private.refs:
+            # val was taken as a reference: the value in force is what
+            # it resolves to (nothing new while it is still pending)
+            val = obj._param__private.values.get(self.name)
+            dynamic = callable(val) and not hasattr(val, '_Dynamic_last')
+""", ""))
+V("C02", "dynamic_state_attached_to_reference", "fire", "R02.d", (P, """        if dynamic and obj is not None and self.name in obj._param__private.refs:
+            # val was taken as a reference: the value in force is what
+            # it resolves to (nothing new while it is still pending)
+            val = obj._param__private.values.get(self.name)
+            dynamic = callable(val) and not hasattr(val, '_Dynamic_last')
+""", ""))
